@@ -22,7 +22,7 @@ from kopfsim import core, net
 
 # Which object the code currently running in this task works for (set by scripted handlers;
 # used to attribute writes to the object they were computed for).
-current_uid: contextvars.ContextVar[Optional[str]] = contextvars.ContextVar('sim_current_uid', default=None)
+current_uid = core.current_uid
 
 
 class _CaptureHandler(logging.Handler):
